@@ -1275,4 +1275,22 @@ theorem bstrSegs_no_panic (len : Nat) (ms : List (Nat × Nat)) : ∀ (cursor : N
     apply bind_no_panic _ _ (ih m1 h3 h4)
     intro t _; rfl
 
+/-! ## more allocation bounds -/
+
+theorem padTo_length_le (cells : List Cell) (n : Nat) :
+    (padTo cells n).length = (if cells.length ≤ n then n else cells.length) := by
+  unfold padTo
+  simp only [List.length_append, List.length_replicate]
+  split <;> omega
+
+theorem mem_le_sum (sizes : List Nat) : ∀ s ∈ sizes, s ≤ sizes.sum := by
+  induction sizes with
+  | nil => intro s h; cases h
+  | cons x xs ih =>
+    intro s h
+    simp only [List.sum_cons]
+    cases h with
+    | head => omega
+    | tail _ hm => have := ih s hm; omega
+
 end XlModel.Decode
